@@ -161,7 +161,7 @@ impl RootBuilder {
 
         for block in self.blocks.values_mut() {
             let original_len = block.records.len();
-            block.records.retain(|r| r.file_data_id != fdid);
+            block.retain_records(|r| r.file_data_id != fdid);
             if block.records.len() < original_len {
                 removed = true;
             }
@@ -185,7 +185,7 @@ impl RootBuilder {
         let key = (locale, content);
         if let Some(block) = self.blocks.get_mut(&key) {
             let original_len = block.records.len();
-            block.records.retain(|r| r.file_data_id != fdid);
+            block.retain_records(|r| r.file_data_id != fdid);
             let removed = block.records.len() < original_len;
 
             // Clean up empty block
@@ -765,4 +765,35 @@ mod tests {
         assert!(builder.has_file(FileDataId::new(300)));
         assert!(!builder.has_file(FileDataId::new(99999)));
     }
+    #[test]
+    fn test_build_after_remove_file_parses() {
+        // A removed record must not stay in the counts of the block and file headers
+        for version in [
+            RootVersion::V1,
+            RootVersion::V2,
+            RootVersion::V3,
+            RootVersion::V4,
+        ] {
+            let mut builder = RootBuilder::new(version);
+            for id in 1..=3u32 {
+                builder.add_file(
+                    FileDataId::new(id),
+                    ContentKey::from_bytes([id as u8; 16]),
+                    None,
+                    LocaleFlags::new(LocaleFlags::ENUS),
+                    ContentFlags::new(ContentFlags::INSTALL | ContentFlags::NO_NAME_HASH),
+                );
+            }
+            assert!(builder.remove_file(FileDataId::new(2)));
+            let data = builder.build().expect("build should succeed");
+            let root = crate::root::file::RootFile::parse(&data).expect("parse should succeed");
+            let ids: Vec<u32> = root
+                .blocks
+                .iter()
+                .flat_map(|b| b.records.iter().map(|r| r.file_data_id.get()))
+                .collect();
+            assert_eq!(ids, vec![1, 3], "{version:?}");
+        }
+    }
+
 }
